@@ -11,7 +11,6 @@ import (
 	"encoding/json"
 	"fmt"
 	"os"
-	"sort"
 	"testing"
 	"time"
 
@@ -27,22 +26,22 @@ func TestMain(m *testing.M) { vf.Main(m) }
 
 // Violation signatures (root causes).
 const (
-	sigStreamWindow = "C12/flow-control/stream-window"   // local FLOW_CONTROL_ERROR on a stream inside the advertised stream window
-	sigConnWindow   = "C12/flow-control/conn-window"     // local FLOW_CONTROL_ERROR inside the advertised initial_max_data
+	sigStreamWindow = "C12/flow-control/stream-window"       // local FLOW_CONTROL_ERROR on a stream inside the advertised stream window
+	sigConnWindow   = "C12/flow-control/conn-window"         // local FLOW_CONTROL_ERROR inside the advertised initial_max_data
 	sigStallStream  = "C12/flow-control/stall-stream-window" // advertised stream credit used up and read by the application, never extended
 	sigStallConn    = "C12/flow-control/stall-conn-window"   // same for the connection credit
-	sigUniCount     = "C12/streams/uni-count"            // local STREAM_LIMIT_ERROR below initial_max_streams_uni
-	sigBidiCount    = "C12/streams/bidi-count"           // local STREAM_LIMIT_ERROR below initial_max_streams_bidi
-	sigOpenBlocked  = "C12/streams/open-blocked"         // the peer could not open a stream below the advertised number
-	sigCIDLimit     = "C12/cid/limit"                    // local CONNECTION_ID_LIMIT_ERROR below active_connection_id_limit
-	sigDgramOff     = "C12/datagram/disabled"            // DATAGRAM frame rejected although max_datagram_frame_size was advertised
-	sigDgramLost    = "C12/datagram/not-received"        // a delivered DATAGRAM frame within the advertised size never reached the application
-	sigIdle         = "C12/idle/config-below-advertised" // idle timeout before the advertised max_idle_timeout elapsed
-	sigRecord       = "C12/record/parameters-differ"     // qlog parameters_set (owner local) differs from the bytes sent
-	sigLocalOther   = "C12/conn/local-transport-error"   // any other locally generated transport error against the conformant peer
-	sigIncomplete   = "C12/data/incomplete"              // data within the advertised limits did not arrive / arrived wrong
-	sigUnexpected   = "C12/conn/unexpected-error"        // connection failed for a reason that is neither of the above (lossless network)
-	sigHarness      = "C12/harness/setup"                // the scenario could not be set up (spec did not build, dial failed, ...)
+	sigUniCount     = "C12/streams/uni-count"                // local STREAM_LIMIT_ERROR below initial_max_streams_uni
+	sigBidiCount    = "C12/streams/bidi-count"               // local STREAM_LIMIT_ERROR below initial_max_streams_bidi
+	sigOpenBlocked  = "C12/streams/open-blocked"             // the peer could not open a stream below the advertised number
+	sigCIDLimit     = "C12/cid/limit"                        // local CONNECTION_ID_LIMIT_ERROR below active_connection_id_limit
+	sigDgramOff     = "C12/datagram/disabled"                // DATAGRAM frame rejected although max_datagram_frame_size was advertised
+	sigDgramLost    = "C12/datagram/not-received"            // a delivered DATAGRAM frame within the advertised size never reached the application
+	sigIdle         = "C12/idle/config-below-advertised"     // idle timeout before the advertised max_idle_timeout elapsed
+	sigRecord       = "C12/record/parameters-differ"         // qlog parameters_set (owner local) differs from the bytes sent
+	sigLocalOther   = "C12/conn/local-transport-error"       // any other locally generated transport error against the conformant peer
+	sigIncomplete   = "C12/data/incomplete"                  // data within the advertised limits did not arrive / arrived wrong
+	sigUnexpected   = "C12/conn/unexpected-error"            // connection failed for a reason that is neither of the above (lossless network)
+	sigHarness      = "C12/harness/setup"                    // the scenario could not be set up (spec did not build, dial failed, ...)
 	sigLeak         = "C12/leak/goroutines"
 )
 
@@ -404,7 +403,6 @@ func runCase(c Case, u *vf.Unit) *vf.Verdict {
 	} else {
 		u.Class("spec:generated")
 	}
-	var knownSigs []string
 	nt := false
 	for i, sc := range c.Scen {
 		r := runScenario(c, sc, u)
@@ -413,7 +411,6 @@ func runCase(c Case, u *vf.Unit) *vf.Verdict {
 			if u.KnownHit(v.Sig) {
 				u.Class("known:" + v.Sig)
 				showKnown(c, i, v)
-				knownSigs = append(knownSigs, v.Sig)
 				continue
 			}
 			v.Detail = fmt.Sprintf("scenario #%d %s: %s", i, describe(sc), v.Detail)
@@ -428,7 +425,6 @@ func runCase(c Case, u *vf.Unit) *vf.Verdict {
 			u.NonTrivial(sc.Kind, sc.Type, specID(c), r.nontrivial)
 		}
 	}
-	sort.Strings(knownSigs)
 	if nt && u.WantSample() {
 		u.Sample(c)
 	}
